@@ -72,6 +72,10 @@ def _bases(kind, tier):
                     out.append(((300.0, -200.0, z0), (300.0 + 0.8 * rho, -200.0 + 0.6 * rho, z1)))
         if n_q:
             out = out[::2]
+        if kind == "uniform0":
+            # endpoints exactly on the range bounds (no reflections involved)
+            out += [((300.0, -200.0, 0.0), (340.0, -170.0, -800.0)), ((300.0, -200.0, -800.0), (340.0, -170.0, -300.0)),
+                    ((300.0, -200.0, -300.0), (340.0, -170.0, 0.0))]
     else:
         for z0 in (-50.0, -150.0, -450.0):
             for z1 in (-80.0, -300.0, -850.0):
